@@ -818,7 +818,7 @@ func permutationsV3(r *ev.Run, G *gprops, gs *gstats, decoders []int, thorough b
 	c1 := baseVec(3, firstCode)
 	bt := tokensOf(3, 0, c1)
 	tt := []string{"E:F", "RL:W", "RC:R"}
-	et := []string{"CR:H", "IR:L", "AR:M", "MAV:P", "MAC:H", "MPR:N", "MUI:R", "MS:C", "MC:N", "MI:L", "MA:H"}
+	et := []string{"CR:H", "IR:L", "AR:M", "MAV:P", "MAC:H", "MPR:N", "MUI:R", "MS:C", "MC:N", "MI:L", "MA:H", "MS:X", "MPR:X", "MAV:X", "MC:X", "CR:X", "MS:U"}
 	var strs []string
 	permute(append([]string{}, tt...), func(p []string) {
 		for a := 0; a <= len(bt); a++ {
@@ -860,7 +860,16 @@ func permutationsV3(r *ev.Run, G *gprops, gs *gstats, decoders []int, thorough b
 			return
 		}
 		for i, e := range et {
-			if used&(1<<uint(i)) == 0 {
+			if used&(1<<uint(i)) != 0 {
+				continue
+			}
+			dupName := false
+			for _, c := range cur {
+				if strings.SplitN(c, ":", 2)[0] == strings.SplitN(e, ":", 2)[0] {
+					dupName = true
+				}
+			}
+			if !dupName {
 				recSel(append(append([]string{}, cur...), e), used|1<<uint(i))
 			}
 		}
@@ -952,7 +961,7 @@ func shortSequences(r *ev.Run, G *gprops, gs *gstats, ver, level, n int) {
 // ---------------------------------------------------------------------------------------------
 // EDIT ball: character-level neighbourhood of seed vectors, and all short byte strings
 
-var editSigma = []byte("CVS:/.301AHLNPRUXMOTWFEID avn\x00\xff")
+var editSigma = []byte("CVS:/.301AHLNPRUXMOTWFEID avn\x00\xff\r\n\t")
 
 func seeds(ver int) []string {
 	if ver == 3 {
@@ -1230,6 +1239,61 @@ func pumping(r *ev.Run, G *gprops, gs *gstats, vers []int, thorough bool) {
 	r.Add("pumped_inputs", n)
 }
 
+// decorations: multi-byte and control decorations (byte order mark, zero-width space, no-break
+// space, CR, LF, CRLF, tab, brackets, quotes) at the start, at the end, after every separator and
+// before every colon of the seed vectors; and tokens / whole inputs filled with 1..400 multi-byte
+// runes (a helper that mixes up byte and rune counts).
+func decorations(r *ev.Run, G *gprops, gs *gstats, vers []int) {
+	decos := []string{"\ufeff", "\u200b", "\u00a0", "\r", "\n", "\r\n", "\t", "(", ")", "\"", "'", "\u3000", "\x00", "\ufffd"}
+	var n int64
+	for _, ver := range vers {
+		for _, seed := range seeds(ver) {
+			pos := []int{0, len(seed)}
+			for i := 0; i < len(seed); i++ {
+				if seed[i] == '/' {
+					pos = append(pos, i+1)
+				}
+				if seed[i] == ':' {
+					pos = append(pos, i)
+				}
+			}
+			for _, p := range pos {
+				for _, d := range decos {
+					for lv := 0; lv < 3; lv++ {
+						judge(r, G, gs, ver, lv, seed[:p]+d+seed[p:])
+					}
+					n++
+				}
+			}
+			for _, d := range decos[:7] {
+				for lv := 0; lv < 3; lv++ {
+					judge(r, G, gs, ver, lv, d+seed+d)
+				}
+				n++
+			}
+		}
+		valid := seeds(ver)[0]
+		fillers := []string{"日", "é", "\U0001d11e", "\u200b"}
+		safeParallel(r, len(fillers), func(fi int) {
+			var b strings.Builder
+			for k := 1; k <= 400; k++ {
+				b.WriteString(fillers[fi])
+				for lv := 0; lv < 3; lv++ {
+					judge(r, G, gs, ver, lv, valid+"/AV:"+b.String())
+					judge(r, G, gs, ver, lv, valid+"/"+b.String()+":N")
+					judge(r, G, gs, ver, lv, b.String())
+					if ver == 3 {
+						judge(r, G, gs, ver, lv, "CVSS:3.1/AV:"+b.String())
+						judge(r, G, gs, ver, lv, "CVSS:"+b.String())
+					}
+				}
+				atomic.AddInt64(&n, 3)
+			}
+		})
+	}
+	r.Add("decorated_inputs", n)
+}
+
 // caseVariants: every valid vector token with its name or its code in every other letter case,
 // at every position of a seed vector (a lookup made case-insensitive for one metric only).
 func caseVariants(r *ev.Run, G *gprops, gs *gstats, vers []int) {
@@ -1275,6 +1339,14 @@ func caseVariants(r *ev.Run, G *gprops, gs *gstats, vers []int) {
 						}
 						for _, nv := range cases(m.Name) {
 							variants = append(variants, nv+":"+c.Code)
+						}
+						// a multi-byte character whose low byte (or low 16 bits) equals a code letter: a
+						// lookup that narrows a rune to a byte reads it as the code
+						if len(c.Code) == 1 {
+							for _, hi := range []rune{0x100, 0x200, 0x2500, 0xFF00, 0x10000, 0x1F600} {
+								variants = append(variants, m.Name+":"+string(hi|rune(c.Code[0])))
+							}
+							variants = append(variants, m.Name+":"+c.Code+"\u0301", m.Name+":"+string(rune(c.Code[0])+0xFEE0)) // combining accent, full-width form
 						}
 						for _, tokText := range variants {
 							t := copyTok(v.Tokens)
@@ -1364,7 +1436,68 @@ func reuseInputs(ver, level int) []string {
 	return out
 }
 
+// sameNamesAndVersion: both inputs are accepted by the reference, carry the same version label and
+// the second names no metric the first does not hold.
+func sameNamesAndVersion(ver, level int, first, second string) bool {
+	a, b := lang.Classify(ver, level, first), lang.Classify(ver, level, second)
+	if !a.Accept || !b.Accept || a.Ver != b.Ver {
+		return false
+	}
+	for k := range b.Tokens {
+		if _, ok := a.Tokens[k]; !ok {
+			return false
+		}
+	}
+	return true
+}
+
+// redecodeSameString: Decode(V) succeeds, one exported field (or the version) is set to its
+// unknown value, Decode(V) with the very same string is called again on the object.  Whatever
+// comes back with a nil error must be a usable object equal to a fresh decode of V.
+func redecodeSameString(r *ev.Run, vers []int) {
+	var n int64
+	for _, ver := range vers {
+		for level := 0; level < 3; level++ {
+			for _, s := range reuseInputs(ver, level)[:6] {
+				if !lang.Classify(ver, level, s).Accept {
+					continue
+				}
+				for _, m := range spec.UpTo(ver, level) {
+					d := lib.New(ver, level)
+					if o, _, _ := lib.Decode(d, s); o == nil {
+						continue
+					}
+					if _, ok := lib.Field(d, m.Name); !ok {
+						continue
+					}
+					lib.SetField(d, m.Name, lib.EnumOf(ver, m.Name).Unknown)
+					obj, err, pan := lib.Decode(d, s)
+					n++
+					cs := map[string]any{"cvss": ver, "decoder": spec.LevelNames[level], "history": []string{"Decode(" + s + ")", "field " + m.Name + " set to its unknown value", "Decode of the same string on the same object"}}
+					if pan != "" {
+						r.Violate(ev.Violation{Kind: "second-decode-panics", Case: cs, Observed: pan, Expected: "no panic"})
+						continue
+					}
+					if (obj == nil) == (err == nil) {
+						r.Violate(ev.Violation{Kind: "object-xor-error", Case: cs, Observed: fmt.Sprintf("object nil=%v, error nil=%v", obj == nil, err == nil), Expected: "exactly one of object and error"})
+						continue
+					}
+					if obj == nil {
+						continue
+					}
+					fresh, _, _ := lib.DecodeNew(ver, level, s)
+					if a, b := observables(obj), observables(fresh); a != b {
+						r.Violate(ev.Violation{Kind: "accepted-object-unusable", Case: cs, Observed: a, Expected: b + "  (a fresh decode of the same string); Decode returned a nil error"})
+					}
+				}
+			}
+		}
+	}
+	r.Add("same_string_redecodes", n)
+}
+
 func reusePhase(r *ev.Run, vers []int) {
+	redecodeSameString(r, vers)
 	var n, accepted int64
 	for _, ver := range vers {
 		for level := 0; level < 3; level++ {
@@ -1372,14 +1505,31 @@ func reusePhase(r *ev.Run, vers []int) {
 			// first inputs: every second input (successful or not), plus inputs rejected before
 			// anything is recorded
 			firsts := append(append([]string{}, ins...), "", "/", "XX:Y", "n/a", "CVSS:3.1", "CVSS:3.1/XX:Y", "CVSS:4.0/AV:N", "CVSS:3.1/AV:Q")
+			if ver == 2 {
+				// v2 only (the final comparison with the re-encoding keeps the pinned decoders strict):
+				// first inputs that fail after a single optional token, alone or in pairs
+				for _, m := range spec.UpTo(2, level) {
+					if m.Level == 0 {
+						continue
+					}
+					for _, c := range m.Codes[:2] {
+						firsts = append(firsts, m.Name+":"+c.Code)
+					}
+				}
+				firsts = append(firsts, "RL:W/RC:UR", "RC:C/E:F", "TD:H/CDP:L", "AR:H/CR:L/IR:M")
+			}
 			level := level
 			ver := ver
 			safeParallel(r, len(firsts), func(fi int) {
 				for _, second := range ins {
 					d := lib.New(ver, level)
-					_, _, pan := lib.Decode(d, firsts[fi])
+					o1, _, pan := lib.Decode(d, firsts[fi])
 					if pan != "" {
 						continue // C12's business
+					}
+					obs1 := ""
+					if o1 != nil {
+						obs1 = observables(d)
 					}
 					obj, err, pan := lib.Decode(d, second)
 					atomic.AddInt64(&n, 1)
@@ -1389,6 +1539,13 @@ func reusePhase(r *ev.Run, vers []int) {
 						continue
 					}
 					if err != nil || obj == nil {
+						// a refused second decode that names only metrics the object already holds, under
+						// the same version label, must leave the successfully decoded object as it was
+						if o1 != nil && sameNamesAndVersion(ver, level, firsts[fi], second) {
+							if now := observables(d); now != obs1 {
+								r.Violate(ev.Violation{Kind: "refused-second-decode-changes-decoded-object", Case: cs, Observed: now, Expected: obs1 + "  (the object as the first decode returned it)"})
+							}
+						}
 						continue
 					}
 					atomic.AddInt64(&accepted, 1)
